@@ -476,6 +476,19 @@ def derivs_run(case, ctx):
             ctx.fail("spelling/removal", "observe(%r) then observe(%r, remove=True) raised %r" % (spellings[i], spellings[j], err))
         if notifier_population(o) != before:
             ctx.fail("spelling/removal", "observe(%r) then observe(%r, remove=True) left notifiers behind" % (spellings[i], spellings[j]))
+    # the list form: [text, other text]; afterwards the text alone still means what it meant (cached patterns not mutated)
+    if graphs[0] is not None:
+        try:
+            o.observe(h, [spellings[0], "c", "b"])
+            o.observe(h, [spellings[0], "c", "b"], remove=True)
+        except Exception as err:
+            ctx.fail("list-form/raised", "observe(h, [%r, 'c', 'b']) / removal raised %r" % (spellings[0], err))
+        if notifier_population(o) != before:
+            ctx.fail("list-form/removal", "list-form registration of %r was not fully removed" % spellings[0])
+        g_after = compile_str(spellings[0])
+        if impl_paths(g_after) != want or g_after != compile_expr(getattr(parse, "__wrapped__", parse)(spellings[0])):
+            ctx.fail("cache/mutated", "after observe(h, [%r, 'c', 'b']) the text alone compiles to %r (documented meaning %r)"
+                     % (spellings[0], sorted(impl_paths(g_after)), sorted(want)))
 
 
 # ----------------------------------------------------------------------------- stage fuzz (thorough): atheris on the parser
